@@ -84,6 +84,16 @@ trait GenT<T: 'static + std::fmt::Debug> {
     fn i2(&self, p0: impl Into<u32> + 'static, p1: u32) -> u32;
 }
 
+#[derive(Debug, Clone, PartialEq)]
+pub struct UnitS;
+#[unimock(api=SelMock)]
+trait SelT {
+    fn z0(&self) -> u32;
+    fn zu(&self, x: ()) -> u32;
+    fn zs(&self, x: UnitS) -> u32;
+    fn two(&self, a: u8, b: &str) -> u32;
+}
+
 // ---------------------------------------------------------------- cases
 fn check(name: &str, ok: bool, detail: String) {
     if ok { println!("case {name} ok") } else { println!("case {name} FAIL {detail}") }
@@ -196,6 +206,38 @@ fn main() {
         let r = u.o_provv(3, 7);
         let s = seen();
         check("own.default.byvalue-required", r == 74 && s == ["provv(3,7)", "reqv(7,3)"], format!("ret={r} seen={s:?}"));
+    });
+    // pattern selection for inputs of other shapes than one scalar: zero-sized inputs, several inputs. The first declared
+    // pattern whose matcher accepts answers; a rejecting matcher is consulted (and never counted) whatever the input type
+    run_case("sel.zero-sized-inputs", || {
+        let counts = |u: &Unimock, m: &str| -> Vec<usize> { unimock::verif::snapshot(u).fns.iter().filter(|f| f.method_ident == m).flat_map(|f| f.patterns.iter().map(|p| p.count)).collect() };
+        let u = Unimock::new((
+            SelMock::z0.each_call(&|m| m.func(|_, _| false)).returns(1u32).at_least_times(0),
+            SelMock::z0.each_call(matching!()).returns(2u32).at_least_times(0),
+            SelMock::zu.each_call(&|m| m.func(|_, _| false)).returns(1u32).at_least_times(0),
+            SelMock::zu.each_call(matching!(_)).returns(2u32).at_least_times(0),
+            SelMock::zs.each_call(&|m| m.func(|_, _| false)).returns(1u32).at_least_times(0),
+            SelMock::zs.each_call(matching!(UnitS)).returns(2u32).at_least_times(0),
+        ));
+        let r = (u.z0(), u.zu(()), u.zs(UnitS), u.z0());
+        let c = (counts(&u, "z0"), counts(&u, "zu"), counts(&u, "zs"));
+        check("sel.zero-sized-inputs", r == (2, 2, 2, 2) && c == (vec![0, 2], vec![0, 1], vec![0, 1]), format!("ret={r:?} counts={c:?}"));
+    });
+    run_case("sel.zero-sized-rejected", || {
+        let u = Unimock::new(SelMock::z0.each_call(&|m| m.func(|_, _| false)).returns(1u32).at_least_times(0)).no_verify_in_drop();
+        let r = std::panic::catch_unwind(std::panic::AssertUnwindSafe(|| u.z0()));
+        let msg = match &r { Ok(v) => format!("answered {v}"), Err(p) => p.downcast_ref::<String>().cloned().unwrap_or_default() };
+        check("sel.zero-sized-rejected", r.is_err() && msg.contains("No matching call patterns"), msg);
+    });
+    run_case("sel.two-inputs-first-accepting", || {
+        let u = Unimock::new((
+            SelMock::two.each_call(matching!(1, "x")).returns(10u32).at_least_times(0),
+            SelMock::two.each_call(matching!(_, "x")).returns(20u32).at_least_times(0),
+            SelMock::two.each_call(matching!(1, _)).returns(30u32).at_least_times(0),
+            SelMock::two.each_call(matching!(_, _)).returns(40u32).at_least_times(0),
+        ));
+        let r = (u.two(1, "x"), u.two(2, "x"), u.two(1, "y"), u.two(2, "y"), u.two(1, "x"));
+        check("sel.two-inputs-first-accepting", r == (10, 20, 30, 40, 10) && count_of(&u, "two") == 5, format!("ret={r:?}"));
     });
     // the original consumed by a by-value provided method still verifies (at the end of the default body): unmet expectations are reported
     run_case("own.default.unmet-verifies", || {
